@@ -22,7 +22,7 @@ import (
 // TrieOp is one step. Ops that refer to current members ("delprefix", "addext", "addprefix")
 // carry indices that the interpreter resolves against the model, so the case stays a pure value.
 type TrieOp struct {
-	Op  string `json:"op"` // add | del | delprefix | addext | addprefix | json | addall (S + every byte value)
+	Op  string `json:"op"` // add | del | delprefix | addext | addprefix | json | addall (S + every byte value) | addmany (S + each of the first Idx byte values from Cut) | delmany (all of those except the Cut-th)
 	S   gen.B  `json:"s,omitempty"`
 	Idx int    `json:"idx,omitempty"`
 	Cut int    `json:"cut,omitempty"`
@@ -159,6 +159,13 @@ func genC15(t *rapid.T, thorough bool) C15Case {
 		if i == fullAt {
 			op = TrieOp{Op: "addall", S: str(0, 2).Draw(t, "prefix")}
 		}
+		if i == fullAt+1 && fullAt >= 0 && i < n {
+			// the node with many children is shrunk again, down to one child
+			prev := c.Ops[len(c.Ops)-1]
+			op = TrieOp{Op: "delmany", S: prev.S, Idx: 256, Cut: rapid.IntRange(0, 255).Draw(t, "keep")}
+			c.Ops = append(c.Ops, op)
+			continue
+		}
 		if i == longAt {
 			// a key much longer than any fixed-size traversal stack
 			n := rapid.SampledFrom([]int{15, 16, 17, 31, 32, 33, 63, 64, 65, 130, 300}).Draw(t, "longLen")
@@ -174,7 +181,7 @@ func genC15(t *rapid.T, thorough bool) C15Case {
 			op.S = str(1, 4).Draw(t, "s")
 		case "delprefix", "addprefix":
 			op.Idx = rapid.IntRange(0, 30).Draw(t, "idx")
-			op.Cut = rapid.IntRange(0, 8).Draw(t, "cut")
+			op.Cut = rapid.OneOf(rapid.IntRange(0, 8), rapid.IntRange(0, 400)).Draw(t, "cut")
 		case "addext":
 			op.Idx = rapid.IntRange(0, 30).Draw(t, "idx")
 			op.S = str(1, 3).Draw(t, "ext")
@@ -434,6 +441,25 @@ func checkC15(c C15Case, o *Obs) error {
 			} else {
 				o.Class("delete of absent")
 			}
+		case "addmany", "delmany":
+			// a node with Idx children (byte values 40, 41, ... wrapping), later shrunk to the
+			// Cut-th of them
+			cnt := max(1, min(op.Idx, 256))
+			keep := ((op.Cut % cnt) + cnt) % cnt
+			desc = fmt.Sprintf("%s(%q, %d children, keep child %d)", op.Op, []byte(op.S), cnt, keep)
+			for j := 0; j < cnt; j++ {
+				key := string(op.S) + string([]byte{byte(40 + j)})
+				if op.Op == "addmany" {
+					tr.Add([]byte(key + "x"))
+					m.add(key + "x")
+				} else if j != keep {
+					got := tr.Delete([]byte(key))
+					if want := m.del(key); got != want {
+						return fmt.Errorf("step %d %s: Delete(%q) returned %v, want %v (history %v)", step, desc, key, got, want, abbrevHist(hist))
+					}
+				}
+			}
+			o.ClassIf(op.Op == "delmany", "wide node shrunk to one child")
 		case "addall":
 			// a node with a child for every byte value
 			desc = fmt.Sprintf("Add(%q+b) for every byte b", []byte(op.S))
@@ -538,6 +564,27 @@ func exhaustiveC15(thorough bool, emit func(C15Case) bool) {
 			continue
 		}
 		if !emit(C15Case{Alphabet: gen.B("ab"), Ops: h}) || !emit(C15Case{Alphabet: gen.B("ab"), Ops: h, Rebuild: true}) {
+			return
+		}
+	}
+	// nodes that grow wide (around 16/17 children, and 256) and shrink back to a single child
+	for _, cnt := range []int{2, 15, 16, 17, 18, 33, 64, 65, 256} {
+		for _, keep := range []int{0, 1, cnt - 1} {
+			h := []TrieOp{{Op: "add", S: gen.B("zz")}, {Op: "addmany", S: gen.B("p"), Idx: cnt}, {Op: "delmany", S: gen.B("p"), Idx: cnt, Cut: keep}, {Op: "add", S: gen.B("pq")},
+				{Op: "delmany", S: gen.B("p"), Idx: cnt, Cut: keep + 1}, {Op: "addmany", S: gen.B(""), Idx: cnt}, {Op: "delmany", S: gen.B(""), Idx: cnt, Cut: keep}}
+			if !emit(C15Case{Alphabet: gen.B("pq("), Ops: h}) {
+				return
+			}
+		}
+	}
+	// long keys in the order a sorted bulk load produces: a prefix of an existing member, a delete
+	// below it, siblings sharing the prefix
+	for _, n := range []int{15, 16, 17, 40} {
+		l := gen.B(bytes.Repeat([]byte("ab"), n/2+1)[:n])
+		cat := func(x gen.B, t string) gen.B { return append(bytes.Clone(x), t...) }
+		h := []TrieOp{{Op: "add", S: cat(l, "xx")}, {Op: "add", S: l}, {Op: "del", S: cat(l, "x")}, {Op: "add", S: cat(l, "w")}, {Op: "add", S: cat(l, "xy")},
+			{Op: "add", S: cat(l, "wq")}, {Op: "del", S: cat(l, "w")}, {Op: "add", S: l[:n-1]}, {Op: "add", S: cat(l, "a")}}
+		if !emit(C15Case{Alphabet: gen.B("abwx"), Ops: h}) || !emit(C15Case{Alphabet: gen.B("abwx"), Ops: h, Rebuild: true}) {
 			return
 		}
 	}
